@@ -66,7 +66,7 @@ func replayDet(line []byte, a *Acc) {
 	dir, _ := os.MkdirTemp("", "mxjdet")
 	defer os.RemoveAll(dir)
 	cases := 0
-	for _, capa := range []int{0, 1, 16, 200} {
+	for _, capa := range []int{0, 16, 200} {
 		inner := make(map[string]interface{}, capa)
 		for _, o := range l.Hist {
 			if o.Op == "put" {
@@ -78,7 +78,7 @@ func replayDet(line []byte, a *Acc) {
 		// rebuild nested maps with the same capacity trick (iteration order of nested maps too)
 		m := mxj.Map{"r": inner}
 		before := tagged.CanonGo(m)
-		for rep := 0; rep < 3; rep++ {
+		for rep := 0; rep < 2; rep++ {
 			cases++
 			check := func(name string, got []byte, err error, want string) bool {
 				if err != nil || string(got) != want {
@@ -193,7 +193,7 @@ func replayDet(line []byte, a *Acc) {
 			if !check("Maps.JsonStringIndent(safe)", []byte(s), err, string(jis)+"\n"+string(jis)) {
 				return
 			}
-			if rep == 0 {
+			if rep == 0 && capa == 0 {
 				fx, fj, fjs := filepath.Join(dir, "x"), filepath.Join(dir, "j"), filepath.Join(dir, "js")
 				e1, e2, e3 := ms.XmlFile(fx), ms.JsonFile(fj), ms.JsonFile(fjs, true)
 				bx, _ := os.ReadFile(fx)
@@ -202,11 +202,36 @@ func replayDet(line []byte, a *Acc) {
 				if !check("Maps.XmlFile", bx, e1, l.X+l.X) || !check("Maps.JsonFile", bj, e2, l.J+l.J) || !check("Maps.JsonFile(safe)", bjs, e3, l.Js+l.Js) {
 					return
 				}
+				// a file is REPLACED: writing shorter content over longer content leaves nothing of the old
+				long := mxj.Maps{m, m, m}
+				for _, f := range []string{fx, fj} {
+					var e1, e2 error
+					want := l.X + l.X
+					if f == fx {
+						e1, e2 = long.XmlFile(f), ms.XmlFile(f)
+					} else {
+						e1, e2 = long.JsonFile(f), ms.JsonFile(f)
+						want = l.J + l.J
+					}
+					got, _ := os.ReadFile(f)
+					if e1 != nil || e2 != nil || string(got) != want {
+						one("det:file-rewrite", fmt.Sprintf("after writing three Maps and then two to the same file it holds %q, expected %q", got, want))
+						return
+					}
+				}
 				fxi, fji := filepath.Join(dir, "xi"), filepath.Join(dir, "ji")
 				e1, e2 = ms.XmlFileIndent(fxi, "", "  "), ms.JsonFileIndent(fji, "", " ")
 				bx, _ = os.ReadFile(fxi)
 				bj, _ = os.ReadFile(fji)
 				if !check("Maps.XmlFileIndent", bx, e1, string(bi)+string(bi)) || !check("Maps.JsonFileIndent", bj, e2, string(ji)+"\n"+string(ji)) {
+					return
+				}
+				long.XmlFileIndent(fxi, "", "  ")
+				long.JsonFileIndent(fji, "", " ")
+				e1, e2 = ms.XmlFileIndent(fxi, "", "  "), ms.JsonFileIndent(fji, "", " ")
+				bx, _ = os.ReadFile(fxi)
+				bj, _ = os.ReadFile(fji)
+				if !check("Maps.XmlFileIndent(rewrite)", bx, e1, string(bi)+string(bi)) || !check("Maps.JsonFileIndent(rewrite)", bj, e2, string(ji)+"\n"+string(ji)) {
 					return
 				}
 			}
